@@ -229,7 +229,7 @@ def run_case(case, ctx):
         ctx.count("force_rows_skipped_at_breakpoint")
         continue
       f_ref = -o.deriv(r)
-      if abs(f_ref) > 1e-6:
+      if not (abs(f_ref) <= 1e-6):
         any_force = True
       slack = 0 if o.analytic else o.num_deriv_slack(r)
       oracle.check_token(ctx, "force", row[3], f_ref, o.dscale(r), rel=1e-8, abs_=slack, where=where, mag=o.dmag(r), fmt="lammps")
